@@ -65,7 +65,7 @@ def main():
             technique=c["technique"]))
     man = dict(
         version=1,
-        setup_cmd="cd /verif/coq && coq_makefile -f _CoqProject -o Makefile $(find theories -name '*.v' | sort) && timeout 3000 make -j16",
+        setup_cmd="mkdir -p /verif/build && /verif/tools/setup.sh",
         hooks=dict(guard="TENSORLY_VERIF", enable="no source hooks are needed: all observations are taken through public extension points from the harness; ./check exports TENSORLY_VERIF=1 for uniformity",
                    baseline_off_cmd="cd /repo && /venv/bin/python -m pytest -ra -q -p no:cacheprovider --timeout=900 --continue-on-collection-errors",
                    source_commits=[], add_only=True),
